@@ -241,4 +241,40 @@ mod verif_kani_core {
     #[kani::proof]
     #[kani::unwind(9)]
     fn new_from_triplets_two_pairs_reversed() { triplets_case([1, 0, 1, 0], [1, 1, 1, 1]); }
+
+    // The Verus units ASSUME contracts for the std functions they cannot see into (prelude/std_assumed.rs).  Sampled check of
+    // those contracts on the real std functions: every nondecreasing usize slice of length 3 with values < 4, every probe < 5
+    // (binary_search, partition_point); rotate_right(1) and fill on length-4 slices with symbolic contents.
+    #[kani::proof]
+    #[kani::unwind(6)]
+    fn std_assumed_contracts_small() {
+        let s: [usize; 3] = kani::any();
+        kani::assume(s[0] <= s[1] && s[1] <= s[2] && s[2] < 4);
+        let x: usize = kani::any();
+        kani::assume(x < 5);
+        match s.binary_search(&x) {
+            Ok(i) => assert!(i < 3 && s[i] == x),
+            Err(i) => {
+                assert!(i <= 3);
+                let mut k = 0;
+                while k < 3 { if k < i { assert!(s[k] < x); } else { assert!(s[k] > x); } k += 1; }
+            }
+        }
+        let r = s.partition_point(|&v| v < x);
+        assert!(r <= 3);
+        let mut k = 0;
+        while k < 3 { if k < r { assert!(s[k] < x); } else { assert!(s[k] >= x); } k += 1; }
+        let t0: [usize; 4] = kani::any();
+        let mut t = t0;
+        t.rotate_right(1);
+        let mut i = 0;
+        while i < 4 { assert!(t[i] == t0[(i + 4 - 1) % 4]); i += 1; }
+        let v: usize = kani::any();
+        t.fill(v);
+        assert!(t[0] == v && t[1] == v && t[2] == v && t[3] == v);
+        let a: i8 = kani::any();
+        let sg = a.signum();
+        assert!(sg == (if a > 0 { 1 } else if a < 0 { -1 } else { 0 }));
+        assert!(core::cmp::max(x, v) == (if x >= v { x } else { v }) && core::cmp::min(x, v) == (if x <= v { x } else { v }));
+    }
 }
